@@ -824,7 +824,7 @@ impl<Db: Database> InternalStorage<Db> {
     pub open spec fn dptr(&self, id: DerivedNodeId) -> usize { self.derived_nodes@[self.drev(id).node_index.idx as int].value.ptr() }
 }
 
-//@fn rel=crates/pico/src/database.rs name=intern_ref vis=pub ret=r serves=C01,C03
+//@fn rel=crates/pico/src/database.rs name=intern_ref vis=pub ret=r serves=C01,C02,C03
 //@rw R2
 //@hsub "db: &Db," => "db: &mut Storage<Db>,"
 //@hsub "T: Clone \+ Hash \+ DynEq \+ 'static" => "T"
@@ -849,7 +849,7 @@ impl<Db: Database> InternalStorage<Db> {
             && final(db).internal.dptr(ref_id_spec(value)) == addr_of_ref(value), //@O C03.O-4_new_interned_reference_points_at_the_value
         // re-interning an equal value NEVER moves time_updated (dependents are not re-run) ...
         old(db).internal.dhas(ref_id_spec(value)) ==>
-            final(db).internal.drev(ref_id_spec(value)).time_updated == old(db).internal.drev(ref_id_spec(value)).time_updated, //@O C01+C03.O-4_reinterning_keeps_time_updated
+            final(db).internal.drev(ref_id_spec(value)).time_updated == old(db).internal.drev(ref_id_spec(value)).time_updated, //@O C02+C03.O-4_reinterning_keeps_time_updated
         // ... but unless it was already verified in this epoch, afterwards the reference points
         // at the NEWEST address of the value (the old address may belong to a collected node)
         old(db).internal.dhas(ref_id_spec(value)) && old(db).internal.drev(ref_id_spec(value)).time_verified != old(db).internal.current_epoch ==>
@@ -887,7 +887,7 @@ pub uninterp spec fn value_id_spec<T>(v: T) -> DerivedNodeId;
 #[verifier::external_body]
 pub fn value_id<T>(value: T) -> (r: (DerivedNodeId, T)) ensures r.0 == value_id_spec(value), r.1 == value { unimplemented!() }
 
-//@fn rel=crates/pico/src/database.rs name=intern_value vis=pub ret=r serves=C01,C03
+//@fn rel=crates/pico/src/database.rs name=intern_value vis=pub ret=r serves=C01,C02,C03
 //@rw R2
 //@hsub "db: &Db," => "db: &mut Storage<Db>,"
 //@hsub "T: Clone \+ Hash \+ DynEq \+ 'static" => "T: DynEq"
@@ -912,7 +912,7 @@ pub fn value_id<T>(value: T) -> (r: (DerivedNodeId, T)) ensures r.0 == value_id_
         old(db).internal.dhas(value_id_spec(value)) ==>
             final(db).internal.drev(value_id_spec(value)).time_updated == old(db).internal.drev(value_id_spec(value)).time_updated
             && final(db).internal.drev(value_id_spec(value)).node_index == old(db).internal.drev(value_id_spec(value)).node_index
-            && final(db).internal.drev(value_id_spec(value)).time_verified == old(db).internal.current_epoch, //@O C01+C03.O-4_reinterned_value_keeps_node_and_time_updated
+            && final(db).internal.drev(value_id_spec(value)).time_verified == old(db).internal.current_epoch, //@O C02+C03.O-4_reinterned_value_keeps_node_and_time_updated
         forall|i: int| 0 <= i < old(db).internal.derived_nodes@.len() ==> #[trigger] final(db).internal.derived_nodes@[i] == old(db).internal.derived_nodes@[i], //@O C03.O-4_interning_never_overwrites_a_node
         final(db).internal.current_epoch == old(db).internal.current_epoch,
         final(db).internal.dwf(),
